@@ -53,6 +53,8 @@ class Lin:
         self.atoms = {}
         self.p = 0
         self.slacks = {}      # (kind, normal form of the aligned expression) -> coeff
+        self.small = {}       # key -> (lo, hi) for small bounded terms (x % c)
+        self.small_coef = {}
         self.k = 0
 
     def add_atom(self, a, c):
@@ -100,6 +102,15 @@ def linearise(e, P, out, coef, w):
                         key = ("down", _nf(x, w))
                         out.slacks[key] = out.slacks.get(key, 0) - coef
                     return
+    # x % c and x.next_multiple_of(c) with constant c: slacks in [0, c-1] (expressed against the page slack range when c <= PAGE_MIN)
+    if e.op == "rem" and e.args[1].is_const() and 0 < e.args[1].val <= PAGE_MIN:
+        key = ("rem", _nf(e.args[0], w), e.args[1].val)
+        out.small[key] = out.small.get(key, (0, e.args[1].val - 1))
+        out.small_coef[key] = out.small_coef.get(key, 0) + coef
+        return
+    if e.op == "ret" and isinstance(e.args[0], str) and e.args[0].endswith("::next_multiple_of"):
+        out.add_atom(e, coef)
+        return
     out.add_atom(e, coef)
 
 
@@ -138,6 +149,10 @@ def prove_ge(lhs, rhs, w, P=None, atom_lower=None):
             k += c * lb
             continue
         return False, "terms do not cancel: %+d * %s remains in (covered end) - (written end)" % (c, fmt(a, 4))
+    # worst case over small bounded terms
+    for key, c in lin.small_coef.items():
+        lo_, hi_ = lin.small[key]
+        k += c * (lo_ if c > 0 else hi_)
     # worst case over slacks in [0, P-1]
     pcoef = lin.p
     for c in lin.slacks.values():
